@@ -21,7 +21,7 @@ var errNegativeSeek = errors.New("unixfsnode/file: seek: negative position")
 func NewUnixFSFile(ctx context.Context, substrate ipld.Node, lsys *ipld.LinkSystem) (LargeBytesNode, error) {
 	if substrate.Kind() == ipld.Kind_Bytes {
 		// A raw / single-node file.
-		return &singleNodeFile{substrate}, nil
+		return &singleNodeFile{Node: substrate}, nil
 	}
 	// see if it's got children.
 	links, err := substrate.LookupByString("Links")
@@ -67,6 +67,9 @@ type LargeBytesNode interface {
 
 type singleNodeFile struct {
 	ipld.Node
+	// substrate is the node this file was reified from when that is not the
+	// bytes node itself (a dag-pb node wrapping the bytes in its UnixFS Data).
+	substrate ipld.Node
 }
 
 func (f *singleNodeFile) AsLargeBytes() (io.ReadSeeker, error) {
@@ -74,6 +77,9 @@ func (f *singleNodeFile) AsLargeBytes() (io.ReadSeeker, error) {
 }
 
 func (f *singleNodeFile) Substrate() datamodel.Node {
+	if f.substrate != nil {
+		return f.substrate
+	}
 	return f.Node
 }
 
